@@ -89,6 +89,10 @@ func runC03(r *Run) {
 	r.checkFullThenUpdate(P)
 	r.checkProgress(P)
 	r.checkResolveFlow(P)
+	// "leaves the document unchanged" when patches fail: the composer works on a copy, always
+	r.checkComposerPure(P)
+	// the earliest anchored candidate consumes a commitment: the chronological order is lexicographic (time, number)
+	r.checkChrono(P, "sortOperations@processor", r.fn(P, pkgProcessor, "sortOperations"))
 }
 
 // checkProvenance checks provTable; only restricts to the given fields when non-nil.
@@ -126,22 +130,12 @@ func (r *Run) checkProvenance(P string, only map[string]bool) {
 					continue
 				}
 				n++
-				var last ssa.Value
-				for _, b := range path {
-					for _, ins := range b.Instrs {
-						if st, isSt := ins.(*ssa.Store); isSt {
-							if fa, isFA := st.Addr.(*ssa.FieldAddr); isFA && fa.X == core.RetOp(ret, 0) && fieldName(fa) == fld {
-								last = st.Val
-							}
-						}
-					}
-				}
-				if last == nil {
+				t := r.effectiveFields(ff, core.RetOp(ret, 0), path)[fld]
+				if t == nil {
 					ok = false
 					det = append(det, "field not assigned on the path returning at "+r.P.Pos(ret.Pos()))
 					continue
 				}
-				t := ff.TB.Of(last)
 				if !core.MatchTerm(pat, t, core.Bind{}) {
 					ok = false
 					det = append(det, fmt.Sprintf("%s at %s", t, r.P.Pos(ret.Pos())))
@@ -265,6 +259,30 @@ func (r *Run) checkFullThenUpdate(P string) {
 			okRoute = false
 		}
 	}
+	// the partition keeps the (sorted) order of its input: every append into a result list happens inside the
+	// single loop and appends the current element — no list is built aside and concatenated afterwards
+	okStable := true
+	detStable := ""
+	for _, b := range sp.Blocks {
+		for _, ins := range b.Instrs {
+			c, ok := ins.(*ssa.Call)
+			if !ok || !isBuiltin(c, "append") {
+				continue
+			}
+			if enclosingLoopHead(sp, b) == nil {
+				okStable = false
+				detStable = "a list is appended to outside the loop at " + r.P.Pos(c.Pos()) + " (lists concatenated after the partition)"
+				continue
+			}
+			elems := variadicElems(c.Common().Args[1])
+			if len(elems) != 1 || !core.MatchTerm("$0[_]", sff.TB.Of(elems[0]), core.Bind{}) {
+				okStable = false
+				detStable = "an append at " + r.P.Pos(c.Pos()) + " does not append the current element"
+			}
+		}
+	}
+	r.R.Check(okStable, P+".split.stable", "E6: splitOperations is an order-preserving partition — each result list grows only by appending the current element inside the loop", core.FuncName(sp), r.where(sp),
+		"if one group is collected aside and concatenated later (e.g. deactivates after recovers), two operations competing for one commitment are no longer tried in anchoring order", "stable partition", detStable)
 	r.R.Check(okRoute, P+".split.route", "E7: splitOperations routes create→createOps, update→updateOps, recover/deactivate→fullOps", core.FuncName(sp), r.where(sp),
 		"a type routed to the wrong list is applied in the wrong phase or never", fmt.Sprint(route), fmt.Sprintf("routing %v %s, expected %v", route, routeConflict, wantRoute))
 
